@@ -81,14 +81,21 @@ pub fn run(input: &Value) -> Value {
         let rpc = Arc::new(Rpc::new(node.path.clone()));
         let provider = PayPaymentProvider::new(rpc, Duration::from_secs(60), input["xpay"].as_bool().unwrap_or(false));
         let kind = input["kind"].as_str().unwrap_or("wait_payment").to_string();
+        let rq = input["request"].clone();
+        let num = |v: &Value, d: u64| -> u64 { v.as_str().and_then(|s| s.parse().ok()).or(v.as_u64()).unwrap_or(d) };
+        let (fee, delta, retry) = (num(&rq["max_fee"], 1000), num(&rq["max_delta"], 100), num(&rq["retry_for"], 60));
+        let provider = if rq.is_object() {
+            let rpc = Arc::new(Rpc::new(node.path.clone()));
+            PayPaymentProvider::new(rpc, Duration::from_secs(retry), input["xpay"].as_bool().unwrap_or(false))
+        } else { provider };
         let task = tokio::spawn(async move {
             if kind == "pay" {
                 provider.pay(PaymentRequest {
                     bolt11: "lnbc1replay".to_string(),
                     payment_hash: payment_hash(),
                     amount_msat: None,
-                    max_fee_msat: 1000,
-                    max_cltv_delta: 100,
+                    max_fee_msat: fee,
+                    max_cltv_delta: delta as u16,
                 }).await.map(Some)
             } else {
                 provider.wait_payment(payment_hash()).await
